@@ -235,6 +235,10 @@ func exploreOne(c *vk.Ctx, in input, f format, data map[string][]byte, bound int
 	e.Check = func(x *verifrt.Exec) bool {
 		c.Eval()
 		c.Trace(1)
+		if x.Hung != "" {
+			c.Violation("hang/"+classOf(f.name), witness{Input: in.name, Format: f.name, Trace: trim(x.Choices)}, x.Hung)
+			return false
+		}
 		if x.Diverged != "" {
 			c.Violation("harness/divergence", witness{Input: in.name, Format: f.name, Trace: x.Choices}, x.Diverged)
 			return true
